@@ -664,12 +664,16 @@ func c13ExecE(toks []string) string {
 		}
 		checker = m
 	}
-	var overrides map[string]string
+	// m=<t1>;<t2>;…: one WithFieldOverrides call per table, in order
+	var overrides []map[string]string
 	if toks[1] != "m=-" {
-		overrides = map[string]string{}
-		for _, p := range strings.Split(strings.TrimPrefix(toks[1], "m="), ",") {
-			ab := strings.Split(p, ">")
-			overrides[fromWire(ab[0])] = fromWire(ab[1])
+		for _, tbl := range strings.Split(strings.TrimPrefix(toks[1], "m="), ";") {
+			m := map[string]string{}
+			for _, p := range strings.Split(tbl, ",") {
+				ab := strings.Split(p, ">")
+				m[fromWire(ab[0])] = fromWire(ab[1])
+			}
+			overrides = append(overrides, m)
 		}
 	}
 	var ops []c13Op
@@ -693,8 +697,8 @@ func c13ExecE(toks []string) string {
 			ctx := &boltz.PersistContext{Id: "e", Bucket: tb, IsCreate: pre}
 			if !pre {
 				ctx.FieldChecker = checker
-				if overrides != nil {
-					ctx.WithFieldOverrides(overrides)
+				for _, m := range overrides {
+					ctx.WithFieldOverrides(m)
 				}
 			}
 			for i, op := range ops {
